@@ -13,6 +13,13 @@ client class that makes a new ``FakeClient`` connection per call) and compares e
 (``Model/MqttObject.lean``, driver commands ``onew`` / ``oconnect`` / ``odisconnect`` / ``oev`` / ``oread`` / ``owrite`` /
 ``osub``).
 
+Part F makes the four documented hooks of an ``MQTTTransport`` (``FaultyMem``) fail with exceptions of ANY class (library
+errors, MqttError, builtin and custom Exception subclasses, CancelledError, a BaseException subclass) at every position -
+every subscribe call, before / together with / after the other calls, the clean-up itself - and part E does the same to
+the aiomqtt calls of ``MQTTClient``.  In every part the harness's broker forwards a message only to a connection that
+has a matching subscription in place, so a ``connect()`` that reports success without all five subscriptions shows as
+a command that is never read (delivery probes), and a ``connect()`` that raises must have closed what it opened.
+
 Nothing here can block for ever: every call into the implementation that may suspend runs as a task that
 is polled (``guarded``) or waited for with a time-out.
 """
@@ -51,12 +58,85 @@ BAD_BYTES = [b"\xff\xfe", b"\xc3", b"\xed\xa0\x80", b"ok\x80"]
 SESSION_FIELDS = [(1, 2, 1, 0, 2), (0, 255, 3, 0, 2), (254, 0, 0, 1, 6), (7, 255, 4, 0, 0), (1, 3, 2, 0, 49)]
 
 
+# ---- what a hook / an aiomqtt call may raise --------------------------------------------------
+#
+# The four hooks of MQTTTransport are an extension point and aiomqtt sits on sockets and time-outs: what they raise
+# is not limited to the library's own errors.  Faults are injected by class NAME (so that a case is plain JSON).
+
+
+class IntegrationError(Exception):
+    """An error type of the code that implements the hooks (not known to the library)."""
+
+
+class BrokerGone(ConnectionError):
+    """A custom subclass of a builtin error."""
+
+
+class HarnessAbort(BaseException):
+    """A BaseException that is not an Exception and that asyncio lets a task end with (KeyboardInterrupt and
+    SystemExit are re-raised through the event loop by Task.__step: they end the whole loop, not the call)."""
+
+
+FAULTS: dict = {
+    "TransportError": TransportError, "TransportFailedError": TransportFailedError, "MqttError": MqttError,
+    "TimeoutError": TimeoutError, "OSError": OSError, "ConnectionResetError": ConnectionResetError,
+    "RuntimeError": RuntimeError, "ValueError": ValueError, "KeyError": KeyError, "TypeError": TypeError,
+    "AttributeError": AttributeError, "IndexError": IndexError, "UnicodeDecodeError": UnicodeDecodeError,
+    "Exception": Exception, "IntegrationError": IntegrationError, "BrokerGone": BrokerGone,
+    "CancelledError": asyncio.CancelledError, "HarnessAbort": HarnessAbort,
+}
+FAULT_NAMES = list(FAULTS)
+LIBRARY_FAULTS = ("TransportError", "TransportFailedError")
+# what an aiomqtt call is made to raise: anything but the library's own errors (aiomqtt cannot know them)
+CLIENT_FAULT_NAMES = [n for n in FAULT_NAMES if n not in LIBRARY_FAULTS]
+# the classes of the Lean vocabulary (Model/Vocab.lean: PyExn); a class outside it is represented in the model by its
+# nearest ancestor inside it (the model looks at a class only through `except` / `suppress` clauses over the
+# vocabulary, and those cannot tell a class from such an ancestor); a class without one is judged by the oracle only
+MODEL_CLASSES = {"KeyError", "ValueError", "TypeError", "AttributeError", "OverflowError", "RecursionError",
+                 "UnicodeDecodeError", "JSONDecodeError", "OSError", "FileNotFoundError", "ValidationError",
+                 "LimitOverrunError", "IncompleteReadError", "CancelledError", "MqttError", "RuntimeError", "IndexError",
+                 "Exception"}
+
+
+# what `_receive_error(error: Exception)` may be handed
+HOOK_ERROR_NAMES = [n for n, c in FAULTS.items() if issubclass(c, Exception)]
+
+
+def make_exc(name: str) -> BaseException:
+    cls = FAULTS[name]
+    if cls is UnicodeDecodeError:
+        return UnicodeDecodeError("utf-8", b"\xff", 0, 1, "injected")
+    return cls(f"injected {name}")
+
+
+def model_class(name):
+    """The name under which the model knows an outcome ('ok' or a class name); None: not representable."""
+    if name in (None, "ok"):
+        return "ok"
+    for base in FAULTS[name].__mro__:
+        if base.__name__ in MODEL_CLASSES:
+            return base.__name__
+    return None
+
+
+def model_res(res: str) -> str:
+    """An observed result with the class of a foreign exception replaced by its model representative."""
+    head, sep, cls = res.partition(":")
+    if head == "foreign" and cls in FAULTS and model_class(cls):
+        return head + sep + model_class(cls)
+    return res
+
+
 def encb(b: bytes) -> str:
     return "-" if not b else ",".join(format(x, "x") for x in b)
 
 
 def topic_of(prefix: str, fields) -> str:
     return prefix + "/" + "/".join(str(x) for x in fields)
+
+
+DEAF = ("connect() returned normally but a broker message on '<in-prefix>/node/child/command/ack/type' with command 0-4 "
+        "is never received: no matching subscription is in place (silently deaf)")
 
 
 def mqtt_match(flt: str, topic: str) -> bool:
@@ -118,7 +198,8 @@ class MemTransport(mqtt_mod.MQTTTransport):
     def __init__(self, in_prefix: str, out_prefix: str) -> None:
         super().__init__(in_prefix=in_prefix, out_prefix=out_prefix)
         self.published: list = []
-        self.subscribed: list = []
+        self.subscribed: list = []          # log of the subscribe calls that returned
+        self.active: list = []              # the broker's view: filters in place on the open connection
         self.connected = False
 
     async def _connect(self) -> None:
@@ -126,12 +207,22 @@ class MemTransport(mqtt_mod.MQTTTransport):
 
     async def _disconnect(self) -> None:
         self.connected = False
+        self.active.clear()
 
     async def _publish(self, topic: str, payload: str, qos: int) -> None:
         self.published.append((topic, payload, qos))
 
     async def _subscribe(self, topic: str, qos: int) -> None:
         self.subscribed.append((topic, qos))
+        self.active.append(topic)
+
+    def broker_message(self, topic: str, payload: str) -> bool:
+        """What a broker does with a message published on `topic`: it forwards it to this client only over an open
+        connection with a matching subscription in place.  Returns whether it was forwarded."""
+        if not self.connected or not any(mqtt_match(f, topic) for f in self.active):
+            return False
+        self._receive(topic, payload)  # noqa: SLF001  documented hook
+        return True
 
 
 class FakeMessages:
@@ -156,7 +247,9 @@ class FakeClient:
         self.ctor = None
         self.queue: asyncio.Queue = asyncio.Queue()
         self.published: list = []
-        self.subscribed: list = []
+        self.subscribed: list = []          # log of the subscribe calls that returned
+        self.active: list = []              # the broker's view: filters in place on this connection while it is open
+        self.sub_calls = 0
         self.entered = 0
         self.exited = 0
 
@@ -164,38 +257,55 @@ class FakeClient:
         self.ctor = (args, kwargs)
         return self
 
+    def _fault(self, key: str) -> None:
+        """script[key]: None / 'ok', or the name of the class the call raises (FAULTS)."""
+        name = self.script.get(key)
+        if name not in (None, "ok"):
+            raise make_exc(name)
+
     async def __aenter__(self):
         await asyncio.sleep(0)
-        if self.script.get("aenter") == "MqttError":
-            raise MqttError("connect refused")
+        self._fault("aenter")
         self.entered += 1
         return self
 
     async def __aexit__(self, *exc):
         await asyncio.sleep(0)
         self.exited += 1
-        if self.script.get("aexit") == "MqttError":
-            raise MqttError("disconnect failed")
+        self.active.clear()      # clean session: the broker forgets the subscriptions of a closed connection
+        self._fault("aexit")
 
     async def publish(self, topic, payload=None, qos=0, retain=False, **kwargs):
         await asyncio.sleep(0)
-        if self.script.get("publish") == "MqttError":
-            raise MqttError("publish failed")
+        self._fault("publish")
         self.published.append((topic, payload, qos, retain))
 
     async def subscribe(self, topic, qos=0, **kwargs):
+        """script['subscribe']: None; k (the calls fail with MqttError once k subscriptions exist); or a list with the
+        outcome ('ok' / class name) of the 1st, 2nd, ... call on this connection (calls beyond it succeed)."""
+        k = self.sub_calls
+        self.sub_calls += 1
         await asyncio.sleep(0)
         fail = self.script.get("subscribe")
-        if fail is not None and len(self.subscribed) >= fail:
+        if isinstance(fail, list):
+            if k < len(fail) and fail[k] not in (None, "ok"):
+                raise make_exc(fail[k])
+        elif fail is not None and len(self.subscribed) >= fail:
             raise MqttError("subscribe failed")
         self.subscribed.append((topic, qos))
+        self.active.append(topic)
 
     @property
     def messages(self):
         return FakeMessages(self.queue)
 
-    def feed(self, topic: str, payload: bytes) -> None:
+    def feed(self, topic: str, payload: bytes) -> bool:
+        """A message published on `topic` at the broker: forwarded to this connection only if a subscription that is in
+        place matches it (as a broker does).  Returns whether it was forwarded."""
+        if not any(mqtt_match(f, topic) for f in self.active):
+            return False
         self.queue.put_nowait(SimpleNamespace(topic=SimpleNamespace(value=topic), payload=payload))
+        return True
 
     def feed_error(self) -> None:
         self.queue.put_nowait(MqttError("connection lost"))
@@ -295,7 +405,9 @@ async def run_mapping(corr: Corr, cases: list, schemas: dict, n_client: int):
             if kind == "mem":
                 tr._receive(echo_topic, p)  # noqa: SLF001  documented hook
             else:
-                fake.feed(echo_topic, p.encode())
+                if not fake.feed(echo_topic, p.encode()) and 0 <= cmd <= 4:
+                    corr.violate(DEAF, {**vrec, "topic": echo_topic, "subscriptions": list(fake.active)})
+                    continue
                 await settle()
             r = await guarded(tr.read())
             if r != ("ok", want_line):
@@ -507,7 +619,8 @@ def build_session(rng, transport, shape, assign, k, label):
             continue
         kind = next(it)
         if kind == "err":
-            ops.append(["err"])
+            # MemTransport: `_receive_error(error: Exception)` is handed whatever the hooks' implementation met
+            ops.append(["err", rng.choice(HOOK_ERROR_NAMES)] if transport == "mem" and rng.random() < 0.6 else ["err"])
         else:
             payload = rng.choice(GOOD_BYTES if kind == "good" else BAD_BYTES)
             ops.append(["msg", list(rng.choice(SESSION_FIELDS)), payload.hex()])
@@ -530,7 +643,10 @@ def expected_arrivals(transport: str, ops) -> list:
             except UnicodeDecodeError:
                 out.append(("e",))
         elif op[0] == "err":
-            out.append(("e",))
+            # the error handed to `_receive_error` is what the read raises: a TransportError subclass is the entry
+            # ("e",); any other class is delivered as it is, in its place in the order
+            cls = op[1] if len(op) > 1 else "TransportFailedError"
+            out.append(("e",) if issubclass(FAULTS[cls], TransportError) else ("foreign", cls))
             connected = transport != "client"
     return out
 
@@ -555,12 +671,14 @@ async def run_session(corr: Corr, sess: dict):
             reads.append(asyncio.ensure_future(tr.read()))
         elif op[0] == "msg":
             topic, payload = topic_of(prefix, op[1]), bytes.fromhex(op[2])
-            if transport == "mem":
-                tr._receive(topic, payload.decode())  # noqa: SLF001  documented hook
-            else:
-                fake.feed(topic, payload)
+            routed = tr.broker_message(topic, payload.decode()) if transport == "mem" else fake.feed(topic, payload)
+            if not routed and not bad:
+                corr.violate(DEAF, {**rec, "at_op": i, "topic": topic,
+                                    "subscriptions": list(tr.active if transport == "mem" else fake.active)})
+                bad = True
         elif transport == "mem":
-            tr._receive_error(TransportFailedError("receive failed"))  # noqa: SLF001  documented hook
+            # the documented error hook takes whatever exception the implementation of the hooks met
+            tr._receive_error(make_exc(op[1] if len(op) > 1 else "TransportFailedError"))  # noqa: SLF001
         else:
             fake.feed_error()
         await settle()
@@ -581,8 +699,9 @@ async def run_session(corr: Corr, sess: dict):
         if any(done_flags[len(delivered):]):
             corr.violate("a later read completed before an earlier one", here)
             bad = True
-        elif any(d[0] == "foreign" for d in delivered):
-            corr.violate("read raised something other than a TransportError", here)
+        elif any(d[0] == "foreign" and d not in want for d in delivered):
+            corr.violate("read raised something other than a TransportError (and other than the error handed to "
+                         "_receive_error)", here)
             bad = True
         elif delivered != want[: len(delivered)]:
             corr.violate("reads did not deliver the arrivals in order, each exactly once", here)
@@ -676,10 +795,14 @@ def split_state(o: str):
 # ---- part E: ONE client object across several connections -------------------------------------
 #
 # A run is a list of operations on one MQTTClient:
-#   ["connect", aenter, sub_fail_at, aexit]   aenter/aexit: "ok" | "MqttError"; sub_fail_at: None | 0..4 (that subscription
-#                                              and the later ones fail); aexit is what the clean-up's __aexit__ does
+#   ["connect", aenter, subs, aexit]   aenter/aexit: "ok" | a class name of FAULTS; subs: None | 0..4 (that subscription
+#                                       and the later ones fail with MqttError) | a list with the outcome ("ok" / class
+#                                       name) of each of the subscribe calls, in call order; aexit is what the clean-up's
+#                                       __aexit__ does
 #   ["disconnect", aexit]   ["msg", fields, hex]   ["err"]   ["read"]   ["write", line, pub]   ["sub", outcome]
-# Broker events go to the connection made last (a connection that was closed, or never opened, has nobody listening).
+#   (every outcome: "ok" or a class name of FAULTS - the aiomqtt calls may raise anything, not only MqttError)
+# Broker events go to the connection made last (a connection that was closed, or never opened, has nobody listening);
+# the broker forwards a message only to a connection that has a matching subscription in place.
 
 OBJ_OUT = "out/x"
 OBJ_LINES = ["1;2;1;0;2;on\n", "1;2;1;1;2;a;b\n", "7;255;3;0;9;\n", "1;2;1;0;2"]
@@ -771,7 +894,64 @@ def object_runs(ctx, rng):
         for _ in range(rng.randint(0, 3)):
             ops.append(["read"])
         runs.append({"in": PREFIXES[k % len(PREFIXES)], "ops": ops, "label": "random" + ("-stuck" if stuck else "")})
+    # exceptions of ANY class out of the aiomqtt calls, at every position: every class at every subscribe call once,
+    # then random plans; after each such connect the five commands are probed (nobody hears them if it failed), and the
+    # object is used again
+    plans = [["connect", "ok", ["ok"] * i + [name] + ["ok"] * (N_SUBS - 1 - i), "ok"]
+             for name in CLIENT_FAULT_NAMES for i in range(N_SUBS)]
+    if ctx.tier == "quick":
+        rng.shuffle(plans)
+        plans = plans[:45]
+    plans += [fault_connect(rng) for _ in range(45 if ctx.tier == "quick" else 1500)]
+    for k, plan in enumerate(plans):
+        ops = []
+        if rng.random() < 0.3:
+            ops += [["connect", "ok", None, "ok"], random_msg(rng), ["read"], ["disconnect", "ok"]]
+        ops.append(plan)
+        ops += probe_ops(rng)
+        tail = rng.random()
+        if tail < 0.5:
+            ops += [["disconnect", rng.choice(["ok", "ok", "MqttError", rng.choice(CLIENT_FAULT_NAMES)])],
+                    ["connect", "ok", None, "ok"]] + probe_ops(rng)[:rng.randint(1, 10)] + [["disconnect", "ok"]]
+        elif tail < 0.75:
+            ops += [["write", rng.choice(OBJ_LINES), rng.choice(["ok"] + CLIENT_FAULT_NAMES)], ["sub", rng.choice(CLIENT_FAULT_NAMES)],
+                    ["connect", "ok", None, "ok"], ["read"], ["disconnect", rng.choice(CLIENT_FAULT_NAMES)]]
+        runs.append({"in": PREFIXES[k % len(PREFIXES)], "ops": ops, "label": "fault-classes"})
     return runs
+
+
+def sub_outcomes(spec) -> list:
+    """The outcomes of the N_SUBS subscribe calls of a connect op, in call order."""
+    if spec is None:
+        return ["ok"] * N_SUBS
+    if isinstance(spec, int):
+        return ["ok"] * spec + ["MqttError"] * (N_SUBS - spec)
+    return [("ok" if x in (None, "ok") else x) for x in spec]
+
+
+def probe_ops(rng) -> list:
+    """One broker message per command 0-4 (the five subscriptions) and a read for each: what a caller that was told
+    'connected' relies on."""
+    msgs = []
+    for cmd in rng.sample(range(5), 5):
+        n, c, _, ack, t = rng.choice(SESSION_FIELDS)
+        msgs.append(["msg", [n, c, cmd, ack, t], rng.choice(GOOD_BYTES).hex()])
+    return msgs + [["read"]] * 5
+
+
+def fault_connect(rng) -> list:
+    """A connect whose aiomqtt calls fail with exceptions of any class, at any position."""
+    x = rng.random()
+    aenter, subs, aexit = "ok", ["ok"] * N_SUBS, rng.choice(["ok", "ok", "ok", "MqttError", rng.choice(CLIENT_FAULT_NAMES)])
+    if x < 0.12:
+        aenter = rng.choice(CLIENT_FAULT_NAMES)
+    elif x < 0.75:
+        subs[rng.randrange(N_SUBS)] = rng.choice(CLIENT_FAULT_NAMES)
+    else:
+        for k in range(N_SUBS):
+            if rng.random() < 0.4:
+                subs[k] = rng.choice(CLIENT_FAULT_NAMES)
+    return ["connect", aenter, subs, aexit]
 
 
 def random_msg(rng):
@@ -820,25 +1000,49 @@ async def run_object(corr: Corr, run: dict):
             broker.script = {"aenter": op[1], "subscribe": op[2], "aexit": op[3]}
             r = await guarded(tr.connect())
             res = res_of(r)
-            healthy = op[1] == "ok" and op[2] is None
+            subs = sub_outcomes(op[2])
+            faults = ([op[1]] if op[1] != "ok" else []) + [x for x in subs if x != "ok"]
+            healthy = not faults
             if clean and link == "down":
                 if healthy and r[0] != "ok":
                     judge("connect with a healthy broker raised on an object that is not connected "
                           "(new, or disconnected before): " + res, {**here, "got": repr(r)})
-                elif not healthy and r[0] != "transport":
+                elif faults and all(x == "MqttError" for x in faults) and r[0] != "transport" and \
+                        (op[1] != "ok" or op[3] in ("ok", "MqttError")):
                     judge("connect with a failing broker did not raise a TransportError: " + res, {**here, "got": repr(r)})
+                elif op[1] != "ok" and r[0] == "ok":
+                    judge("connect returned normally although the broker connection could not be opened (" + op[1] + ")",
+                          {**here, "got": repr(r)})
+                # a subscribe call that failed (with whatever class): either connect raises, or - if it reports
+                # success - all five subscriptions are in place; that is judged where it shows: a broker message on a
+                # command topic that is not forwarded (the "msg" ops below), and right here for the record
+                if r[0] == "ok" and not healthy:
+                    corr.count("object:connect-reported-success-after-a-failed-subscribe-call")
+                    conn = broker.conns[-1] if broker.conns else None
+                    missing = [cmd for cmd in range(5) if conn is None
+                               or not any(mqtt_match(f, f"{prefix}/1/2/{cmd}/0/2") for f in conn.active)]
+                    if missing:
+                        judge(DEAF, {**here, "got": repr(r), "subscribe_outcomes": subs, "deaf_for_commands": missing,
+                                     "subscriptions": list(conn.active) if conn else []})
                 if r[0] == "ok":
                     link, clean = "up", False
                     if pending_before_disc:
                         corr.count("object:reads-pending-across-reconnect", pending_before_disc)
-                elif op[1] != "ok":
-                    clean = False     # observation: the object keeps the client it could not open (see the notes)
-                    corr.count("object:observation:failed-broker-connect")
+                elif op[1] != "ok" or op[3] not in ("ok", "MqttError"):
+                    # observation: the object keeps the client it could not open / could not close (see the notes)
+                    clean = False
+                    corr.count("object:observation:failed-broker-connect" if op[1] != "ok"
+                               else "object:observation:clean-up-after-failed-subscribe-raised")
                 if r[0] != "ok":
                     if task_state(tr) != "none":
                         judge("a failed connect left the receive task behind", {**here, "task": task_state(tr)})
-                    if op[1] == "ok" and getattr(tr, "_client", None) is not None:
-                        judge("a failed subscription left the client behind", here)
+                    if op[1] == "ok" and op[3] in ("ok", "MqttError") and getattr(tr, "_client", None) is not None:
+                        judge("a failed subscription left the client behind (half-open connection)", here)
+                    if op[1] == "ok" and broker.conns and broker.conns[-1].exited != 1:
+                        judge("a failed subscription did not close the broker connection (half-open connection)",
+                              {**here, "exited": broker.conns[-1].exited})
+                for x in faults:
+                    corr.count("object:connect-fault:" + x)
             elif link == "down" and not clean:
                 corr.count("object:observation:connect-after-failed-broker-connect:" + res)
             else:
@@ -850,7 +1054,12 @@ async def run_object(corr: Corr, run: dict):
             unread_before_disc = max(0, len(arrivals) - len(reads))
             r = await guarded(tr.disconnect())
             res = res_of(r)
-            if link != "down":
+            if link != "down" and op[1] not in ("ok", "MqttError"):
+                # __aexit__ raising something aiomqtt does not document: what disconnect() does with it is an
+                # observation (model comparison); the connection is gone either way
+                corr.count("object:observation:aexit-raised-foreign:" + res)
+                link, clean = "down", r[0] == "ok"
+            elif link != "down":
                 if r[0] != "ok":
                     judge("disconnect raised " + str(r[1] or r[0]), {**here, "got": repr(r)})
                 else:
@@ -866,9 +1075,10 @@ async def run_object(corr: Corr, run: dict):
                 corr.count("object:misuse:disconnect-while-not-connected:" + res)
         elif kind == "msg":
             topic, payload = topic_of(prefix, op[1]), bytes.fromhex(op[2])
-            if broker.conns:
-                broker.conns[-1].feed(topic, payload)
-            if link == "up":
+            routed = broker.conns[-1].feed(topic, payload) if broker.conns else False
+            if link == "up" and not routed:
+                judge(DEAF, {**here, "topic": topic, "subscriptions": list(broker.conns[-1].active) if broker.conns else []})
+            elif link == "up":
                 try:
                     n, c, cmd, ack, t = op[1]
                     arrivals.append(("m", f"{n};{c};{cmd};{ack};{t};" + payload.decode()))
@@ -896,12 +1106,14 @@ async def run_object(corr: Corr, run: dict):
                 else:
                     res = f"published-{len(pubs)}-times"
             if link != "down" and len(op[1].split(";")) >= 6:
-                want = "transport" if op[2] != "ok" else "ok"
-                if r[0] != want:
-                    judge("write on a connected object: expected " + want, {**here, "got": repr(r)})
+                want = "ok" if op[2] == "ok" else ("transport" if op[2] == "MqttError" else "raise")
+                if r[0] != want and not (want == "raise" and r[0] in ("transport", "foreign")):
+                    judge("write on a connected object: expected " + want + " (publish: " + op[2] + ")",
+                          {**here, "got": repr(r)})
         elif kind == "sub":
             if broker.conns:
-                broker.conns[-1].script["subscribe"] = None if op[1] == "ok" else 0
+                conn = broker.conns[-1]
+                conn.script["subscribe"] = ["ok"] * conn.sub_calls + [op[1]]
             r = await guarded(tr._subscribe(prefix + "/extra", 0))  # noqa: SLF001
             res = res_of(r)
         await settle()
@@ -955,10 +1167,10 @@ def object_ops(run: dict) -> list[str]:
     for op in run["ops"]:
         k = op[0]
         if k == "connect":
-            subs = ["ok"] * N_SUBS if op[2] is None else ["ok"] * op[2] + ["MqttError"] * (N_SUBS - op[2])
-            out.append(f"oconnect {op[1]} {op[3]} " + " ".join(subs))
+            out.append(f"oconnect {model_class(op[1])} {model_class(op[3])} "
+                       + " ".join(str(model_class(x)) for x in sub_outcomes(op[2])))
         elif k == "disconnect":
-            out.append(f"odisconnect {op[1]}")
+            out.append(f"odisconnect {model_class(op[1])}")
         elif k == "msg":
             out.append(f"oev msg {enc(topic_of(run['in'], op[1]))} {encb(bytes.fromhex(op[2]))}")
         elif k == "err":
@@ -966,10 +1178,20 @@ def object_ops(run: dict) -> list[str]:
         elif k == "read":
             out.append("oread")
         elif k == "write":
-            out.append(f"owrite {enc(OBJ_OUT)} {enc(op[1])} {op[2]}")
+            out.append(f"owrite {enc(OBJ_OUT)} {enc(op[1])} {model_class(op[2])}")
         elif k == "sub":
-            out.append(f"osub {op[1]}")
+            out.append(f"osub {model_class(op[1])}")
     return out
+
+
+def object_representable(run: dict) -> bool:
+    """Can the model be given every outcome of the run (every class has a representative in its vocabulary)?"""
+    for op in run["ops"]:
+        names = {"connect": [op[1], op[3]] + sub_outcomes(op[2]) if op[0] == "connect" else [],
+                 "disconnect": op[1:2], "write": op[2:3], "sub": op[1:2]}.get(op[0], [])
+        if any(model_class(x) is None for x in names):
+            return False
+    return True
 
 
 def parse_ostate(o: str):
@@ -1027,6 +1249,194 @@ async def run_failures(corr: Corr):
     return ops, recs
 
 
+# ---- part F: the documented hooks failing with exceptions of ANY class, at every position ----------------------
+#
+# A plan (plain JSON) says what each hook call of one MQTTTransport does:
+#   {"connect": outcome, "subscribe": [outcome x 5, in call order], "delay": [loop turns each subscribe call takes],
+#    "disconnect": outcome (of the `_disconnect` awaited by connect() itself, if it gets there), "publish": outcome}
+# outcome = "ok" or a class name of FAULTS.  The oracle is the property's: connect() either returns with ALL five
+# subscriptions in place - then a broker message on the topic of each command 0-4 is delivered to read() - or it raises
+# and leaves no half-open connection; write() either publishes or raises.
+
+
+class FaultyMem(MemTransport):
+    def __init__(self, in_prefix: str, out_prefix: str, plan: dict) -> None:
+        super().__init__(in_prefix, out_prefix)
+        self.plan = plan
+        self.sub_calls = 0
+        self.disc_calls = 0
+        self.during_connect = True       # the harness clears it when connect() has ended
+        self.fired: list = []
+
+    def _maybe(self, hook: str, name) -> None:
+        if name not in (None, "ok"):
+            self.fired.append([hook, name])
+            raise make_exc(name)
+
+    async def _connect(self) -> None:
+        await asyncio.sleep(0)
+        self._maybe("_connect", self.plan.get("connect"))
+        self.connected = True
+
+    async def _disconnect(self) -> None:
+        self.disc_calls += 1
+        await asyncio.sleep(0)
+        self.connected = False
+        self.active.clear()
+        if self.during_connect:
+            self._maybe("_disconnect", self.plan.get("disconnect"))
+
+    async def _publish(self, topic: str, payload: str, qos: int) -> None:
+        await asyncio.sleep(0)
+        self._maybe("_publish", self.plan.get("publish"))
+        self.published.append((topic, payload, qos))
+
+    async def _subscribe(self, topic: str, qos: int) -> None:
+        k = self.sub_calls
+        self.sub_calls += 1
+        outcomes, delays = self.plan.get("subscribe") or [], self.plan.get("delay") or []
+        for _ in range(delays[k] if k < len(delays) else 1):
+            await asyncio.sleep(0)
+        self._maybe(f"_subscribe#{k}:{topic}", outcomes[k] if k < len(outcomes) else "ok")
+        if self.connected:      # a SUBACK on a connection that was closed meanwhile subscribes nothing
+            self.subscribed.append((topic, qos))
+            self.active.append(topic)
+
+
+def hook_fault_plans(ctx, rng) -> list:
+    plans = [{"in": "gw-out", "plan": {}, "label": "healthy"}]
+    k = 0
+
+    def add(plan: dict, label: str) -> None:
+        nonlocal k
+        plans.append({"in": PREFIXES[k % len(PREFIXES)], "plan": plan, "label": label})
+        k += 1
+
+    for name in FAULT_NAMES:
+        # every class at every subscribe call; the failing call ends before / together with / after the others
+        for i in range(N_SUBS):
+            delays = [0, 1, 3] if ctx.tier != "quick" else [rng.choice([0, 1, 3])]
+            for d in delays:
+                add({"subscribe": ["ok"] * i + [name] + ["ok"] * (N_SUBS - 1 - i),
+                     "delay": [1] * i + [d] + [1] * (N_SUBS - 1 - i)}, "subscribe-one")
+        add({"connect": name}, "connect")
+        add({"publish": name}, "publish")
+        # the clean-up itself fails
+        add({"subscribe": ["ok"] * (k % N_SUBS) + [rng.choice(FAULT_NAMES)] + ["ok"] * (N_SUBS - 1 - k % N_SUBS),
+             "disconnect": name}, "subscribe-and-cleanup")
+    for _ in range(60 if ctx.tier == "quick" else 3000):
+        # several calls fail (same number of turns each: the first in call order is the first in time)
+        subs = [rng.choice(FAULT_NAMES) if rng.random() < 0.4 else "ok" for _ in range(N_SUBS)]
+        add({"connect": rng.choice(FAULT_NAMES) if rng.random() < 0.1 else "ok", "subscribe": subs,
+             "disconnect": rng.choice(FAULT_NAMES) if rng.random() < 0.25 else "ok",
+             "publish": rng.choice(FAULT_NAMES) if rng.random() < 0.3 else "ok"}, "random")
+    for d in ([0] * 5, [3, 2, 1, 0, 0], [0, 4, 0, 4, 0]):
+        add({"delay": d}, "healthy")
+    return plans
+
+
+async def probe_read(tr):
+    """A read that gets what is there now: ('ok', line) | ('transport'|'foreign', class) | ('nothing', None)."""
+    t = asyncio.ensure_future(tr.read())
+    await settle(3)
+    if not t.done():
+        t.cancel()
+        await asyncio.wait([t], timeout=1)
+        return ("nothing", None)
+    return outcome_of(t)
+
+
+async def run_hook_faults(corr: Corr, cases: list, rng):
+    ops, recs = [], []
+    for case in cases:
+        prefix, plan = case["in"], case["plan"]
+        rec = {"kind": "hookfault", "in_prefix": prefix, "plan": plan}
+        tr = FaultyMem(prefix, OBJ_OUT, plan)
+        subs = [("ok" if x in (None, "ok") else x) for x in (plan.get("subscribe") or [])] + ["ok"] * N_SUBS
+        subs = subs[:N_SUBS]
+        c_out, d_out = plan.get("connect") or "ok", plan.get("disconnect") or "ok"
+        planned = ([c_out] if c_out != "ok" else []) + [x for x in subs if x != "ok"]
+        r = await guarded(tr.connect())
+        tr.during_connect = False
+        await settle(6)                       # subscribe calls still running when connect() raised end here
+        got = "ok" if r[0] == "ok" else str(r[1] or r[0])
+        here = {**rec, "connect": repr(r), "hook_faults_fired": list(tr.fired), "subscriptions_in_place": list(tr.active)}
+        in_place = list(tr.active) if r[0] == "ok" else []
+        if r[0] == "hang":
+            corr.violate("connect() did not finish", here)
+        elif r[0] == "ok":
+            if c_out != "ok":
+                corr.violate("connect() returned normally although the `_connect` hook raised " + c_out, here)
+            # the caller was told 'connected': every command must be heard
+            deaf = []
+            for cmd in range(5):
+                n, c, _, ack, t = rng.choice(SESSION_FIELDS)
+                payload = rng.choice(PAYLOAD_CLASSES)[1]
+                topic = f"{prefix}/{n}/{c}/{cmd}/{ack}/{t}"
+                routed = tr.broker_message(topic, payload)
+                pr = await probe_read(tr)
+                if pr != ("ok", f"{n};{c};{cmd};{ack};{t};{payload}"):
+                    deaf.append({"command": cmd, "topic": topic, "forwarded_by_broker": routed, "read": repr(pr)})
+            if deaf:
+                corr.violate(DEAF, {**here, "probes_not_delivered": deaf})
+            corr.count("hook-faults:delivery-probes", 5)
+            if not planned:
+                pub = plan.get("publish") or "ok"
+                w = await guarded(tr.write(OBJ_LINES[1]))
+                if pub == "ok" and (w[0] != "ok" or tr.published != [(OBJ_OUT + "/1/2/1/1/2", "a;b", 1)]):
+                    corr.violate("write with a healthy publish hook did not publish", {**here, "write": repr(w),
+                                                                                     "published": repr(tr.published)})
+                elif pub != "ok" and (w[0] == "ok" or tr.published):
+                    corr.violate("write returned normally although the `_publish` hook raised " + pub + " (message lost silently)",
+                                 {**here, "write": repr(w)})
+                elif pub in LIBRARY_FAULTS and w != ("transport", pub):
+                    corr.violate("a TransportError raised by the `_publish` hook did not reach the caller of write",
+                                 {**here, "write": repr(w)})
+            d = await guarded(tr.disconnect())
+            if d[0] != "ok":
+                corr.violate("disconnect raised with a healthy `_disconnect` hook: " + str(d[1] or d[0]), {**here, "got": repr(d)})
+        else:
+            if not planned:
+                corr.violate("connect() raised although every hook returned: " + got, here)
+            elif c_out == "ok" and (tr.connected or tr.disc_calls == 0):
+                corr.violate("connect() raised but left the connection open: `_disconnect` was not awaited "
+                             "(half-open connection)", {**here, "disconnect_calls": tr.disc_calls})
+            if planned and all(x in LIBRARY_FAULTS for x in planned) and d_out == "ok" and r[0] != "transport":
+                corr.violate("a TransportError raised by a hook did not reach the caller of connect as a TransportError",
+                             here)
+        left = await leftover_tasks()
+        if left:
+            corr.violate("tasks left running after connect / disconnect", {**here, "leftover": left})
+        corr.case(("hookfault", prefix, json.dumps(plan, sort_keys=True)), True,
+                  {**rec, "connect": got} if case["label"] != "healthy" and len(corr.samples) < 6 else None)
+        corr.count("hook-faults:" + case["label"])
+        for x in planned:
+            corr.count("hook-fault-class:" + x)
+        # the model: MQTTTransport.connect over the hooks (Mqtt.hookConnect), for plans whose subscribe calls all take
+        # the same number of turns or of which at most one fails (gather propagates the FIRST exception in time)
+        delays = (plan.get("delay") or []) + [1] * N_SUBS
+        names = [c_out, d_out] + subs
+        if (len(set(delays[:N_SUBS])) == 1 or sum(1 for x in subs if x != "ok") <= 1) and \
+                all(model_class(x) for x in names):
+            ops.append(f"hconn {enc(prefix)} " + " ".join(model_class(x) for x in names))
+            impl_res = "ok" if r[0] == "ok" else (model_class(got) if got in FAULTS else got)
+            recs.append((rec, (impl_res, 1 if tr.disc_calls and r[0] != "ok" else 0, sorted(in_place))))
+    return ops, recs
+
+
+def compare_hook_faults(corr: Corr, recs, outs) -> None:
+    for (rec, impl), o in zip(recs, outs):
+        try:
+            parts = dict(x.split("=", 1) for x in split_state(o))
+            model = (parts["res"], int(parts["cleanup"]),
+                     sorted(lib.dec(t) for t in parts["inplace"].strip("[]").split(" ") if t != ""))
+        except (KeyError, ValueError, IndexError):
+            model = ("model-error", o)
+        if model != impl:
+            corr.disagree("connect over the documented hooks (result, clean-up awaited, subscriptions in place)",
+                          {**rec, "impl": repr(impl), "model": repr(model)})
+
+
 async def run_backlog(corr: Corr, n: int = 1500) -> None:
     """A reader that is behind: `n` messages arrive before the first read.  Every one of them must be delivered, in
     order, and a message arriving afterwards too (no bound on the backlog may end reception silently)."""
@@ -1039,7 +1449,9 @@ async def run_backlog(corr: Corr, n: int = 1500) -> None:
                 corr.violate("connect failed in the backlog scenario", {**rec, "got": repr(r)})
                 continue
             for i in range(n):
-                fake.feed(f"gw-out/1/0/1/0/2", str(i).encode())
+                if not fake.feed(f"gw-out/1/0/1/0/2", str(i).encode()):
+                    corr.violate(DEAF, {**rec, "topic": "gw-out/1/0/1/0/2", "subscriptions": list(fake.active)})
+                    break
             await settle(16)
         else:
             tr = MemTransport("gw-out", "gw-in")
@@ -1092,6 +1504,44 @@ def utf8_cases(ctx, rng):
     return cases
 
 
+# ---- replay ----------------------------------------------------------------------------------
+
+
+def replay(case: dict) -> None:
+    """Re-execute one recorded case (kinds 'hookfault', 'object', 'session') on the implementation and print what the
+    oracle says about it."""
+    corr = Corr("C18", "replay")
+    kind = case.get("kind")
+    saved_client = mqtt_mod.AsyncioClient
+
+    async def main() -> None:
+        if kind == "hookfault":
+            await run_hook_faults(corr, [{"in": case["in_prefix"], "plan": case["plan"], "label": "replay"}],
+                                  lib.rng_for(0, "c18-replay"))
+        elif kind == "object":
+            steps = await run_object(corr, {"in": case["in_prefix"], "ops": case["ops"], "label": "replay"})
+            for op, st in zip(case["ops"], steps):
+                print(f"   {op} -> {st[0]} client={st[1]} task={st[2]} delivered={len(st[3])} waiting={st[4]} queue={st[5]}")
+        elif kind == "session":
+            await run_session(corr, {"transport": case["transport"], "in": case["in_prefix"], "ops": case["ops"],
+                                     "aexit": case.get("aexit", "ok"), "label": "replay"})
+        else:
+            print("(cases of this kind are reproduced by re-running the check with the same seed)")
+
+    try:
+        asyncio.run(main())
+    finally:
+        mqtt_mod.AsyncioClient = saved_client
+    if kind in ("hookfault", "object", "session"):
+        print(f"re-executed on the implementation: {len(corr.violations)} oracle violation(s)")
+        for v in corr.violations:
+            print("  VIOLATED:", v["what"])
+            for k in ("connect", "hook_faults_fired", "subscriptions_in_place", "probes_not_delivered", "at_op", "got",
+                      "deaf_for_commands", "subscriptions", "topic"):
+                if k in v:
+                    print(f"     {k}: {v[k]}")
+
+
 # ---- entry point -----------------------------------------------------------------------------
 
 
@@ -1115,10 +1565,19 @@ def run_c18(ctx) -> Corr:
                 "order, each once, none lost; disconnect of a connected object returns and leaves neither task nor "
                 "client nor a running task; a healthy connect on a new or disconnected object succeeds; a failed "
                 "connect leaves no task; every step (result, client, task, read results, waiting reads, queue "
-                "length) compared with the object model oStep; all compared with the Lean model (toTopic, toLine, "
-                "matchesFilter, subscriptions, utf8Decode, tStep, disconnect, connect, write, oStep). non-trivial = "
-                "distinct case with a special payload/prefix/field, every distinct session, object run, "
-                "subscription set and failure script")
+                "length) compared with the object model oStep; (f) faults of ANY exception class (" + ", ".join(FAULT_NAMES)
+                + ") at every hook: MQTTTransport over the documented hooks - every class at each of the five "
+                "_subscribe calls (ending before / with / after the others), at _connect, at _publish, at the "
+                "_disconnect of the clean-up, plus random multi-fault plans - and MQTTClient's aiomqtt calls "
+                "(__aenter__, each subscribe call, publish, __aexit__) inside object runs that go on using the object; "
+                "the harness's broker forwards a message only over an open connection with a matching subscription in "
+                "place (all parts); checked: connect() either returns with all five subscriptions in place - one "
+                "broker message per command 0-4 is then delivered to read() - or raises having awaited _disconnect "
+                "(no half-open connection, no task, no client); write() publishes or raises; an error of any class "
+                "handed to _receive_error is raised by the read whose turn it is; all compared with the Lean model "
+                "(toTopic, toLine, matchesFilter, subscriptions, utf8Decode, tStep, disconnect, connect, write, oStep, "
+                "hookConnect). non-trivial = distinct case with a special payload/prefix/field, every distinct "
+                "session, object run, fault plan, subscription set and failure script")
     rng = lib.rng_for(ctx.seed, "c18")
     mrng = lib.rng_for(ctx.seed, "c18-malformed")
     schemas = {v: codec.schema_for(v) for v in lib.VERSIONS}
@@ -1126,6 +1585,7 @@ def run_c18(ctx) -> Corr:
     cases = mapping_cases(ctx, rng)
     sessions = session_cases(ctx, rng)
     replay_runs: list = []
+    replay_hooks: list = []
     if getattr(ctx, "replay", None):
         with open(ctx.replay, encoding="utf-8") as f:
             rc = json.load(f).get("case", {})
@@ -1134,10 +1594,14 @@ def run_c18(ctx) -> Corr:
                                 "aexit": rc.get("aexit", "ok"), "label": "replay"})
         elif rc.get("kind") == "object":
             replay_runs.append({"in": rc["in_prefix"], "ops": rc["ops"], "label": "replay"})
+        elif rc.get("kind") == "hookfault":
+            replay_hooks.append({"in": rc["in_prefix"], "plan": rc["plan"], "label": "replay"})
         elif rc.get("kind") == "write":
             cases.insert(0, {"version": rc.get("version", "2.2"), "out": rc["out"], "in": rc["in"],
                              "fields": tuple(rc["fields"]), "payload": rc["payload"], "label": "replay"})
     objects = replay_runs + object_runs(ctx, lib.rng_for(ctx.seed, "c18-object"))
+    frng = lib.rng_for(ctx.seed, "c18-hook-faults")
+    hook_cases = replay_hooks + hook_fault_plans(ctx, frng)
     results: dict = {}
 
     async def main() -> None:
@@ -1159,6 +1623,7 @@ def run_c18(ctx) -> Corr:
             corr.count("session-reads", shape.count("R"))
         results["sess"] = sess_obs
         results["fail"] = await run_failures(corr)
+        results["hooks"] = await run_hook_faults(corr, hook_cases, frng)
         obj_obs = []
         for run in objects:
             obj_obs.append(await run_object(corr, run))
@@ -1195,10 +1660,12 @@ def run_c18(ctx) -> Corr:
         flat = []
         for so in sess_ops:
             flat.extend(so)
-        obj_ops = [object_ops(r) for r in objects]
+        # a run with an outcome of a class the model's vocabulary has no representative for is judged by the oracle only
+        obj_ops = [object_ops(r) if object_representable(r) else [] for r in objects]
         for oo in obj_ops:
             flat.extend(oo)
-        all_ops = map_ops + sub_ops + raw_ops + fail_ops + [f"utf8 {encb(b)}" for b in u8] + flat
+        hook_ops, hook_recs = results["hooks"]
+        all_ops = map_ops + sub_ops + raw_ops + fail_ops + hook_ops + [f"utf8 {encb(b)}" for b in u8] + flat
         outs = lib.run_model(all_ops, driver=DRIVER)
         pos = 0
         compare_mapping(corr, map_checks, outs[pos: pos + len(map_ops)])
@@ -1211,6 +1678,8 @@ def run_c18(ctx) -> Corr:
             if o != want:
                 corr.disagree("broker failure", {**rec, "impl": want, "model": o})
         pos += len(fail_ops)
+        compare_hook_faults(corr, hook_recs, outs[pos: pos + len(hook_ops)])
+        pos += len(hook_ops)
         for b, o in zip(u8, outs[pos: pos + len(u8)]):
             try:
                 got = ("ok", b.decode())
@@ -1231,7 +1700,8 @@ def run_c18(ctx) -> Corr:
                    "aexit": sess["aexit"]}
             for i, (st, o) in enumerate(zip(steps, mo[1:-1])):
                 model = parse_state(o)
-                if model != (st[0], st[1], st[2]):
+                # an error of any class handed to `_receive_error` is the queue item `err` of the model
+                if model != ([("e",) if d[0] == "foreign" else d for d in st[0]], st[1], st[2]):
                     corr.disagree("reception step", {**rec, "at_op": i, "impl": repr(st), "model": repr(model)})
                     break
             if mo[-1] != disc:
@@ -1239,16 +1709,23 @@ def run_c18(ctx) -> Corr:
         for run, oo, steps in zip(objects, obj_ops, results["obj"]):
             mo = outs[pos: pos + len(oo)]
             pos += len(oo)
+            if not oo:
+                corr.count("object-run:oracle-only (a class outside the model's vocabulary)")
+                continue
             rec = {"kind": "object", "in_prefix": run["in"], "ops": run["ops"]}
             for i, (st, o) in enumerate(zip(steps, mo[1:])):
                 model = parse_ostate(o)
-                if model != st:
+                if model != (model_res(st[0]),) + tuple(st[1:]):
                     corr.disagree("object step (result, client held, task, read results, reads waiting, queue length)",
                                   {**rec, "at_op": i, "op": run["ops"][i], "impl": repr(st), "model": repr(model)})
                     break
     corr.exhaustive = False
-    corr.notes.append("asyncio.Queue, task cancellation, aiomqtt and the broker are modelled (DESIGN section 5); the fake "
-                      "client raises MqttError only, as aiomqtt documents")
+    corr.notes.append("asyncio.Queue, task cancellation, aiomqtt and the broker are modelled (DESIGN section 5); the message "
+                      "iterator of the fake client raises MqttError only, as aiomqtt documents; its other calls and the "
+                      "documented hooks are made to raise any class; KeyboardInterrupt / SystemExit are not injected "
+                      "(asyncio re-raises them through the event loop: they end the loop, not the call); classes outside "
+                      "the model's vocabulary are compared through their nearest ancestor inside it, a class without one "
+                      "(HarnessAbort) is judged by the oracle only")
     if corr.dist.get("object:observation:failed-broker-connect"):
         corr.notes.append("observation (outside the property's text, theorem failed_broker_connect_keeps_client / "
                           "stuck_after_failed_broker_connect): MQTTClient._connect assigns self._client before awaiting "
